@@ -31,7 +31,7 @@ COMPONENTS = {'real': ['compiled enspara.info_theory.libinfo (unmodified generat
 ASSUMPTIONS = ['at least one frame per trajectory (zero frames is outside the statement)',
                'state counts >= 2 per feature for channel-capacity normalisation (the routine asserts it)',
                'floating tolerances for the algebraic laws: 1e-9 absolute / relative']
-REACH_EXPECTED = ['pooled_trajectories_serial_variant', 'weighted_many_states_narrow_type', 'views_sharing_first_element', 'long_trajectory', 'team_ge_2', 'one_thread_per_feature', 'different_feature_counts', 'different_state_counts',
+REACH_EXPECTED = ['state_counts_in_a_narrow_integer_type', 'pooled_trajectories_serial_variant', 'weighted_many_states_narrow_type', 'views_sharing_first_element', 'long_trajectory', 'team_ge_2', 'one_thread_per_feature', 'different_feature_counts', 'different_state_counts',
                   'mixed_dtypes', 'self_counts', 'invalid_negative', 'invalid_too_large', 'invalid_length', 'invalid_mixed_dtypes', 'pooled_trajectories',
                   'weighted_uniform', 'relabel_invariance', 'permutation_invariance', 'schedule_pair_compared']
 INTS = ('int8', 'int16', 'int32', 'int64', 'uint8', 'uint16', 'uint32', 'uint64')
@@ -298,10 +298,13 @@ def laws(ctx, t, mi, entropy, A, B, jc, na, nb, self_mode, wna, wnb):
                     lambda: 'mi_matrix_serial over two pieces %s vs MI of pooled counts %s (upper triangles)' % (np.asarray(Ms).tolist(), I.tolist()))
             ctx.hit('pooled_trajectories_serial_variant')
     # channel-capacity normalisation
-    nx = np.array([t.irange(2, 6) for _ in range(fa)])
-    ny = nx if (self_mode and t.flag()) else np.array([t.irange(2, 6) for _ in range(fb)])
+    sdt = t.choice(('int64', 'int64', 'int8', 'uint8', 'int16', 'int32'))          # state counts are small numbers: any integer type will do
+    nx = np.array([t.irange(2, 6) for _ in range(fa)]).astype(sdt)
+    ny = nx if (self_mode and t.flag()) else np.array([t.irange(2, 6) for _ in range(fb)]).astype(sdt)
+    if sdt in ('int8', 'uint8', 'int16'):
+        ctx.hit('state_counts_in_a_narrow_integer_type')
     N = ctx.sut(mi.channel_capacity_normalization, I, nx, ny)
-    want = I / np.log(np.minimum(nx[:, None], ny[None, :]))
+    want = I / np.log(np.minimum(nx[:, None], ny[None, :]).astype(np.float64))
     require(close(N, want), 'normalisation_wrong', lambda: 'entry (i,j) must be divided by log(min(n_x[i], n_y[j])): n_x=%s n_y=%s got %s want %s'
             % (nx.tolist(), ny.tolist(), np.asarray(N).tolist(), want.tolist()))
     require(close(I, model_mi(jc)), 'input_modified', 'channel_capacity_normalization changed its argument')
